@@ -109,3 +109,77 @@ func VH_C05_short_index_records() {
 	}
 	sdb.VerifReach("end")
 }
+
+// The same stages with *generated* definitions instead of a menu (generator:
+// sdb.VerifGenCreateTable, see harness/db/zz_verif_hostile.go). The schema is
+// built from the generated syntax tree the way newSchema does after parsing, and
+// every read operation's implementation runs on it. SQLite itself rejects many
+// of these definitions (duplicate columns, two primary keys, unknown key
+// columns, WITHOUT ROWID without a key) — a hostile file can contain them all
+// the same.
+//verif:shards 16
+//verif:witnesses 16
+//verif:bounds generated CREATE TABLE: 1..2 columns (thorough: 1..3) named from {a, b, A} (duplicates and case-duplicates included), type {"", INTEGER}, column constraint {none, PRIMARY KEY, UNIQUE}; 0..1 table constraints (thorough: 0..2) PRIMARY KEY/UNIQUE over 1..2 key columns from {a, b, nosuch, a+1}; WITHOUT ROWID yes/no; one-row table (concrete values) with an index i over (b, a), lookup key 1 or 2; Columns, Select, SelectRowid, PKSelect, IndexedSelect, IndexedSelectEq implementations all run on the resulting schema: errors or rows, never a panic. The syntax tree is generated directly (parsing is skipped for speed); native replays assert that parsing the rendered text gives the same tree
+func VH_C05_hostile_gen() {
+	sh := sdb.VerifShard(16)
+	// the file depends on the shard only (WITHOUT ROWID or not): it is built and
+	// opened once, before the definition is generated. The implementations below
+	// do not read the stored text again, so it is a fixed one.
+	f := sdb.VerifNewFile(512)
+	root, iroot := f.AddPage(), f.AddPage()
+	f.Master([]sdb.VerifMasterRow{
+		{Typ: "table", Name: "t", Tbl: "t", Root: root, SQL: "CREATE TABLE t (a, b)"},
+		{Typ: "index", Name: "i", Tbl: "t", Root: iroot, SQL: "CREATE INDEX i ON t (b, a)"},
+	})
+	// values are concrete here: this harness varies the definition, the value
+	// space is VH_C05_hostile_schema's and the record stages'
+	rec := sdb.VerifRecord(int64(1), int64(2), int64(3))
+	if sh%2 == 1 {
+		f.IndexLeaf(root, [][]byte{rec})
+	} else {
+		f.TableLeaf(root, []int64{1}, 1, [][]byte{rec})
+	}
+	f.IndexLeaf(iroot, [][]byte{sdb.VerifRecord(int64(2), int64(1), int64(1))})
+	d, err := f.Open()
+	sdb.VerifNoErr(err, "file opens")
+	sdb.VerifNoErr(d.RLock(), "lock")
+	key := Key{int64(1 + sdb.VerifChoice(2))}
+
+	g := sdb.VerifGenCreateTable(sh)
+	if sdb.VerifNative() {
+		sdb.VerifAssert(g.ParsesToSelf(), "generated syntax tree equals the parse of its text")
+	}
+	s, err := sdb.VerifSchemaOf(g.AST, g.Index)
+	if err != nil {
+		sdb.VerifReach("rejected")
+		return
+	}
+	cb := func(Row) {}
+	cbd := func(Row) bool { return false }
+	cols := []string{"a", "b"}
+	ind := s.NamedIndex("i")
+	// the bodies of DB.Select, SelectRowid, PKSelect, IndexedSelect, IndexedSelectEq
+	// after their db.Schema(table) call
+	if s.WithoutRowid {
+		_ = selectNonRowid(d, s, cbd, cols)
+		_ = pkSelectNonRowid(d, s, key, cb, cols)
+		if ind != nil {
+			_ = indexedSelectNonRowid(d, s, ind, cb, cols)
+			if dbkey, err := asDbKey(key, ind.Columns); err == nil {
+				_ = indexedSelectEqNonRowid(d, s, ind, dbkey, cb, cols)
+			}
+		}
+	} else {
+		_ = select_(d, s, cbd, cols)
+		_, _ = selectRowid(d, s, 1, cols)
+		_ = pkSelect(d, s, key, cb, cols)
+		if ind != nil {
+			_ = indexedSelect(d, s, ind, cb, cols)
+			if dbkey, err := asDbKey(key, ind.Columns); err == nil {
+				_ = indexedSelectEq(d, s, ind, dbkey, cb, cols)
+			}
+		}
+	}
+	d.RUnlock()
+	sdb.VerifReach("end")
+}
